@@ -11,6 +11,7 @@ import (
 
 func init() {
 	reg("C18_ActivationGated", C18_ActivationGated)
+	reg("C18_ActivationAtRegistration", C18_ActivationAtRegistration)
 	reg("C18_AlwaysActive", C18_AlwaysActive)
 }
 
@@ -53,6 +54,33 @@ func C18_ActivationGated() {
 	verif.Reach("deactivated-by-regression", verif.And(wasActive, !f.IsActive()))
 	verif.Reach("boundary", e == act)
 	verif.ObserveBool("active", f.IsActive())
+}
+
+// C18_ActivationAtRegistration: a notifier that tells a handler the current epoch at the moment it
+// registers (the node's notifier does) is a notification like any other: right after
+// construction the function is active exactly when that epoch is >= its activation epoch.
+func C18_ActivationAtRegistration() {
+	w := world.New(world.Config{})
+	act := verif.U32("activation")
+	w.Epochs.NotifyAtRegistration = true
+	w.Epochs.Current = verif.U32("epoch.at.registration")
+	var f vmcommon.BuiltinFunction
+	base := vmcommon.BaseOperationCost{}
+	roles := &world.RolesStub{W: w}
+	switch verif.Choose("which", 3) {
+	case 0:
+		f, _ = builtInFunctions.NewESDTNFTAddUriFunc(1, base, w.Codec, w.Pause, roles, act, w.Epochs)
+	case 1:
+		f, _ = builtInFunctions.NewESDTNFTUpdateAttributesFunc(1, base, w.Codec, w.Pause, roles, act, w.Epochs)
+	default:
+		f, _ = builtInFunctions.NewESDTNFTMultiTransferFunc(1, w.Codec, w.Pause, w.Accounts, w.Shards, base, act, w.Epochs)
+	}
+	verif.Assert("active-iff-registration-epoch-reached", f.IsActive() == (w.Epochs.Current >= act))
+	e := verif.U32("e")
+	w.Epochs.Confirm(e)
+	verif.Assert("active-iff-epoch-reached", f.IsActive() == (e >= act))
+	verif.Reach("active-at-registration", w.Epochs.Current >= act)
+	verif.Reach("inactive-at-registration", w.Epochs.Current < act)
 }
 
 // C18_AlwaysActive: every other function reports active regardless of notifications.
